@@ -131,7 +131,7 @@ def cfg_tla(c):
 GV_REQ = ["TypeOK", "ReqShortestIsImage", "ReqShortestReversal", "ReqQuotientRule", "ReqEuler", "ReqDKSymmetric",
           "ReqEulerGamma"]
 GV_PRE = ["PreSupercellComplete", "PreShortestStable", "PreTensorsSymmetric", "PreDenominator", "PreSupercellKeepsPointGroup", "PreCentringGroup"]
-CFG_GV = "SPECIFICATION Spec\nCONSTANTS\n Cfgs <- MCCfgs\nCHECK_DEADLOCK FALSE\n" + \
+CFG_GV = "SPECIFICATION Spec\nCONSTANTS\n Cfgs <- MCCfgs\n Cells <- MCCells\nCHECK_DEADLOCK FALSE\nINVARIANT InvCells\n" + \
     "".join("INVARIANT %s\n" % i for i in GV_REQ + GV_PRE)
 
 TOL = dict(dm=1e-11, ddm=1e-10, gv_analytic=1e-8, gv_vs_freq_gradient=2e-3, gv_fd_mode=1e-5, gv_gl=1e-4,
@@ -299,6 +299,7 @@ def run(ctx):
                 "exponent k, strain pair); degenerate_sets inputs")
     margins = {}
     gv_events = group_velocity_part(ctx, margins)
+    kernel_cells_part(ctx, margins)
     degeneracy_part(ctx, gv_events)
     gruneisen_part(ctx, margins)
     gruneisen_nonhydrostatic(ctx, margins)
@@ -311,7 +312,8 @@ def group_velocity_part(ctx, margins):
     from phonopy.harmonic.derivative_dynmat import DerivativeOfDynamicalMatrix
 
     cfgs = make_cfgs(ctx)
-    mc = "---- MODULE MC_GV ----\nEXTENDS GroupVelocity\nMCCfgs == {\n%s\n}\n====\n" % ",\n".join(cfg_tla(c) for c in cfgs)
+    mc = "---- MODULE MC_GV ----\nEXTENDS GroupVelocity\nMCCells == {}\nMCCfgs == {\n%s\n}\n====\n" % ",\n".join(
+        cfg_tla(c) for c in cfgs)
     res = ctx.tlc("MC_GV", cfg_text=CFG_GV, extra_files={"MC_GV.tla": mc}, requirement=False, dump=True, keep=True,
                   coverage=not ctx.quick, extra_args=("-continue",), workers=4)
     try:
@@ -1296,3 +1298,138 @@ def mesh_symmetry_tlc(ctx, mesh_cases, mesh_obs, prefix):
                                                         reducedEqualsFull=o["reducedEqualsFull"],
                                                         averagesAgree=o["averagesAgree"]) for o in mesh_obs]))
     ctx.traces += len(mesh_obs)
+
+
+# ---------------------------------------------------------------------------------
+def kernel_cells(ctx, build):
+    """dD/dq and group velocity in every cell (use_openmp flag of the object) x (how the object was made) of THIS
+    build of the extension: Phonopy's own dynamical matrix, and objects from get_dynamical_matrix with the default
+    flag (False) and with True.  Returns the recorded cells; violations go to ctx."""
+    import phonopy._phonopy as phonoc
+    from phonopy.harmonic.derivative_dynmat import DerivativeOfDynamicalMatrix
+    from phonopy.harmonic.dynamical_matrix import get_dynamical_matrix
+    from phonopy.phonon.group_velocity import GroupVelocity
+
+    if bool(phonoc.use_openmp()) != (build == "omp"):
+        raise tlcmod.MachineryError("kernel cells: build %r but use_openmp() = %r" % (build, phonoc.use_openmp()))
+    cfgs = [c for c in make_cfgs(ctx) if (c["entry"], c["prim"]) in (("tetab", False), ("naclg", True))][:2]
+    for c in cfgs:
+        c["pts"] = [x for x in c["pts"] if sum(1 for v in x if v % 7 != 0) >= 2][:2]
+    mc = "---- MODULE MC_GV ----\nEXTENDS GroupVelocity\nMCCells == {}\nMCCfgs == {\n%s\n}\n====\n" % ",\n".join(
+        cfg_tla(c) for c in cfgs)
+    res = ctx.tlc("MC_GV", cfg_text=CFG_GV, extra_files={"MC_GV.tla": mc}, requirement=True, dump=True, keep=True, workers=2)
+    try:
+        states = tla_values.parse_dump(res.dump_path)
+    finally:
+        tlcmod.cleanup(res)
+    cells = {}
+    for c in cfgs:
+        built = [s_ for s_ in states if s_["pc"] == "built" and s_["cfg"]["id"] == c["id"]][0]
+        ats = [s_ for s_ in states if s_["pc"] == "at" and s_["cfg"]["id"] == c["id"]]
+        orc = Oracle(c["entry"], c["mats"], seed=ctx.seed * 77 + c["id"], ctx=ctx)
+        case = GVCase(c, orc, built)
+        n = case.nc
+        fac = n.ph0.unit_conversion_factor
+        born = np.array([n.Zraw[a - 1] for a in n.at])
+        nacp = dict(born=born, dielectric=n.eps_raw, factor=n.factor, method="wang")
+        phw = n.nac_phonopy("wang", "full", born=born, eps=n.eps_raw)
+        makers = {("phonopy", build == "omp"): lambda nac: (phw if nac else n.ph0).dynamical_matrix}
+        for flag in (False, True):
+            def mk(nac, flag=flag):
+                kw = dict(use_openmp=True) if flag else {}          # False is the default of get_dynamical_matrix
+                with quiet():
+                    return get_dynamical_matrix(n.fc_full.copy(), n.ph0.supercell, n.ph0.primitive,
+                                                nac_params=dict(nacp) if nac else None, **kw)
+            makers[("direct", flag)] = mk
+        gscale = np.abs(n.fc_full).max() / n.masses.min()
+        for st in ats:
+            x = st["x"]
+            qp = n.to_prim_red(np.array(x, float) / c["pden"])
+            for nac in (False, True):
+                Dm, dDc = case.expected(x, c["pden"], st, nac)
+                scale_dd = max(np.abs(dDc).max(), 1e-3 * gscale * np.abs(case.L).max())
+                fr, gvx, ok = gv_from(Dm, dDc, fac)
+                for (via, flag), mk in makers.items():
+                    cell = cells.setdefault((build, via, flag), dict(build=build, via=via, openmp=flag, ddm=True, gv=True))
+                    try:
+                        dm = mk(nac)
+                        if bool(dm.use_openmp) != flag:
+                            raise tlcmod.MachineryError("kernel cells: object flag %r, wanted %r" % (dm.use_openmp, flag))
+                        ddm = DerivativeOfDynamicalMatrix(dm)
+                        with quiet():
+                            ddm.run(qp)
+                            g = GroupVelocity(dm, symmetry=None, frequency_factor_to_THz=fac)
+                            g.run([qp])
+                        e1 = np.abs(np.array(ddm.d_dynamical_matrix) - dDc).max() / scale_dd
+                        sg = max(np.abs(gvx[ok]).max() if ok.any() else 0.0, 1e-6)
+                        e2 = np.abs(np.array(g.group_velocities[0])[ok] - gvx[ok]).max() / sg if ok.any() else 0.0
+                    except tlcmod.MachineryError:
+                        raise
+                    except Exception as e:
+                        ctx.violation("gv:cells-raises", "dD/dq / group velocity raised %r" % e,
+                                      dict(cfg=c, build=build, via=via, use_openmp=flag))
+                        cell["ddm"] = cell["gv"] = False
+                        continue
+                    ctx.count(("cells", build, via, flag, c["id"], tuple(x), nac))
+                    cell["max_ddm_err"] = max(cell.get("max_ddm_err", 0.0), float(e1))
+                    cell["max_gv_err"] = max(cell.get("max_gv_err", 0.0), float(e2))
+                    if not (e1 <= TOL["ddm"]):
+                        cell["ddm"] = False
+                        ctx.violation("gv:cells:ddm:%s:%s" % (build, "openmp" if flag else "serial-loop"),
+                                      "dD/dq differs from the term-wise derivative of the lattice Fourier sum (build %s, "
+                                      "object made via %s with use_openmp=%s)" % (build, via, flag),
+                                      dict(cfg=c, x=x, q=qp, nac=nac, build=build, via=via, use_openmp=flag,
+                                           rel_err=float(e1), expected=dDc[0][:3, :6], got=np.array(ddm.d_dynamical_matrix)[0][:3, :6]))
+                    if not (e2 <= TOL["gv_analytic"]):
+                        cell["gv"] = False
+                        ctx.violation("gv:cells:velocity:%s:%s" % (build, "openmp" if flag else "serial-loop"),
+                                      "group velocity differs from <e|dD/dq|e> factor^2/2f (build %s, object made via %s "
+                                      "with use_openmp=%s)" % (build, via, flag),
+                                      dict(cfg=c, x=x, q=qp, nac=nac, build=build, via=via, use_openmp=flag, rel_err=float(e2)))
+    return list(cells.values())
+
+
+def kernel_cells_part(ctx, margins):
+    """this build in-process, the other build (VERIF_EXT_VARIANT) in a sub-process; TLC judges the cell table."""
+    import json
+    import os
+    import subprocess
+    import sys
+    here = os.environ.get("VERIF_EXT_VARIANT", "omp")
+    here = here if here in ("omp", "serial") else "serial"
+    other = "serial" if here == "omp" else "omp"
+    cells = kernel_cells(ctx, here)
+    env = dict(os.environ, VERIF_EXT_VARIANT=other, VERIF_SEED=str(ctx.seed), VERIF_TIER=ctx.tier)
+    verif = os.path.dirname(os.path.dirname(os.path.dirname(os.path.abspath(__file__))))
+    r = subprocess.run([sys.executable, "-m", "harness.c12_variant"], cwd=verif, env=env, stdout=subprocess.PIPE,
+                       stderr=subprocess.PIPE, text=True, timeout=900)
+    lines = [l for l in r.stdout.splitlines() if l.startswith("C12VARIANT ")]
+    if r.returncode != 0 or not lines:
+        raise tlcmod.MachineryError("kernel cells: sub-process for build %s failed (rc %s)\n%s" % (other, r.returncode,
+                                                                                                 (r.stderr or r.stdout)[-1500:]))
+    sub = json.loads(lines[-1][len("C12VARIANT "):])
+    cells += sub["cells"]
+    for v in sub["violations"]:
+        ctx.violation(v["key"], v["what"], v["detail"])
+    ctx.evaluations += sub["evaluations"]
+    ctx.states += sub["states"]
+    for cl in cells:
+        upd(margins, "cells_ddm", cl.get("max_ddm_err", 0.0))
+        upd(margins, "cells_gv", cl.get("max_gv_err", 0.0))
+    ctx.extra["kernel_cells"] = [dict(build=cl["build"], via=cl["via"], use_openmp=cl["openmp"], ddm=cl["ddm"], gv=cl["gv"])
+                                 for cl in cells]
+    ctl = ", ".join("[build |-> %s, via |-> %s, openmp |-> %s, ddm |-> %s, gv |-> %s]" % (
+        to_tla(cl["build"]), to_tla(cl["via"]), "TRUE" if cl["openmp"] else "FALSE", "TRUE" if cl["ddm"] else "FALSE",
+        "TRUE" if cl["gv"] else "FALSE") for cl in cells)
+    mc = "---- MODULE MC_GV ----\nEXTENDS GroupVelocity\nMCCells == {%s}\nMCCfgs == {}\n====\n" % ctl
+    res = ctx.tlc("MC_GV", cfg_text=CFG_GV, extra_files={"MC_GV.tla": mc}, requirement=False, workers=1)
+    if res.violated:
+        exercised = set((cl["build"], cl["via"], cl["openmp"]) for cl in cells)
+        want = {(b, "phonopy", b == "omp") for b in ("omp", "serial")} | {(b, "direct", f) for b in ("omp", "serial")
+                                                                           for f in (False, True)}
+        if want - exercised:
+            raise tlcmod.MachineryError("kernel cells: not every (build, via, use_openmp) cell was exercised: %s"
+                                        % sorted(want - exercised))
+        ctx.violation("gv:cells:ImplCells", "GroupVelocity.tla InvCells fails: dD/dq or the group velocity is wrong in a "
+                      "(build, use_openmp) cell", dict(cells=ctx.extra["kernel_cells"]))
+    ctx.traces += len(cells)
